@@ -103,3 +103,44 @@ pub fn payload(flow: u32, idx: u32, len: usize) -> Vec<u8> {
     }
     v
 }
+
+// ------------------------------------------------------------------------------------------
+// Typed channels (rch) over simnet
+// ------------------------------------------------------------------------------------------
+
+use remoc::{RemoteSend, rch::base};
+
+pub type ConnResult = Result<(), ChMuxError<io::Error, io::Error>>;
+
+/// Two endpoints connected through `remoc::Connect::framed`, each with a base sender and receiver.
+pub struct RchPair<AB, BA> {
+    pub a_tx: base::Sender<AB>,
+    pub a_rx: base::Receiver<BA>,
+    pub b_tx: base::Sender<BA>,
+    pub b_rx: base::Receiver<AB>,
+    pub conn_a: JoinHandle<ConnResult>,
+    pub conn_b: JoinHandle<ConnResult>,
+    pub ctl: LinkCtl,
+}
+
+/// Establishes a full remoc connection (chmux + initial base channel) between two endpoints.
+pub async fn connect_rch<AB, BA>(
+    name: &'static str, cfg_a: Cfg, cfg_b: Cfg, link_cfg: LinkCfg, mode: MonitorMode,
+) -> Result<RchPair<AB, BA>, String>
+where
+    AB: RemoteSend,
+    BA: RemoteSend,
+{
+    let ((sink_a, stream_a), (sink_b, stream_b), ctl) = net::link(name, link_cfg, mode);
+    ctl.monitor(|m| {
+        m.max_ports = [Some(cfg_a.max_ports), Some(cfg_b.max_ports)];
+    });
+    let fa = remoc::Connect::framed::<_, _, AB, BA, remoc::codec::Default>(cfg_a, sink_a, stream_a);
+    let fb = remoc::Connect::framed::<_, _, BA, AB, remoc::codec::Default>(cfg_b, sink_b, stream_b);
+    let (ra, rb) = tokio::join!(fa, fb);
+    let (conn_a, a_tx, a_rx) = ra.map_err(|e| format!("connect A failed: {e}"))?;
+    let (conn_b, b_tx, b_rx) = rb.map_err(|e| format!("connect B failed: {e}"))?;
+    let conn_a = kit::spawn(conn_a);
+    let conn_b = kit::spawn(conn_b);
+    Ok(RchPair { a_tx, a_rx, b_tx, b_rx, conn_a, conn_b, ctl })
+}
